@@ -72,6 +72,35 @@ func Checks() map[string]*simcore.Check {
 			Gen:  Gen44, Decode: Decode44, Run: Run44, Shrink: Shrink44,
 			ProbeNames: []string{"handshake-ok", "all-delivered", "error-at-fault", "short-reads", "handshake-failed-after-fault", "forged-peer-1", "forged-peer-2", "forged-peer-control-accepted", "stall-timeout-observed"},
 		},
+		"C46": {
+			ID: "C46", Engine: "netsim", Level: "exploration",
+			Rule: "plan = local id, 8-70 pool nodes at 1-4 chosen log distances (incl. <=239 and the local id itself) with addresses from 1-5 /24 subnets (IPv4, IPv6, LAN), ping interval, 20-220 operations: add found / inbound node, deliver an updated record (sequence and/or endpoint), delete, advance the clock (50 ms .. 31 s), answer the k-th outstanding revalidation ping (pong, timeout, higher sequence with fetched record or failed fetch), report a findnode result (failure counter, found nodes), refresh, findnodeByID with random targets / sizes / liveness preference. One stimulus at a time, bubble quiescent before the next. Non-trivial = a bucket filled up, an address was refused by a limit, a dead node was removed or a planned transport fault fired; distinct = distinct hashes of the table content after every operation.",
+			Assumptions: []string{
+				"LAN classification in the reference is restricted to the three private ranges the generator uses (10/8, 192.168/16, 172.20/16)",
+				"the table's random choices (which node to revalidate, which replacement to promote, revalidation schedule) come from its own PRNG seeded through the deterministic crypto/rand; the oracle accepts any choice",
+				"refresh timer and re-seed ticker (bubble time) never fire because the harness never lets bubble time pass; refresh is exercised as an explicit operation",
+			},
+			Components: simcore.Components{Real: []string{"p2p/discover.Table incl. loop goroutine, tableRevalidation, bucket / replacement / IP-limit handling, findnodeByID", "p2p/netutil.DistinctNetSet", "p2p/enode.DB (memory)"},
+				Stub: []string{"transport (ping, RequestENR, lookups: planned outcomes)", "clock (mclock.Simulated)", "node records (null identity scheme)"}},
+			Runs: map[string]int{"quick": 6000, "thorough": 300000},
+			Gen:  Gen46, Decode: Decode46, Run: Run46, Shrink: Shrink46,
+			ProbeNames: []string{"added-to-bucket", "bucket-full", "refused-by-ip-limit", "replacement-refused-by-ip-limit", "dead-node-removed", "replacement-promoted", "failed-check-kept", "revalidated-live", "endpoint-changed", "record-updated", "findnode-compared", "findnode-live-only", "findnode-truncated", "refresh", "add-existing"},
+		},
+		"C53": {
+			ID: "C53", Engine: "netsim", Level: "exploration",
+			Rule: "plan = chain seed, update version (old / electra state indices), checkpoint period, 2-12 periods, signer threshold (1..342), time enforcement on/off, clock position, 10-80 operations: deliver an update (genuine with chosen slot / signer count around the threshold / finality, or one of 8 forgeries; next committee genuine / missing / fake / of another period; any period order, repeats), check a signed header (genuine / other period's / forger's committee, signer count around the threshold, tampered slot / state root / signer bits / signature, signature slot across the period boundary), restart on the same disk, crash losing the last 1-4 write units, clock advance, fail the k-th next KV write, a later genuine checkpoint; then faults stop and all genuine updates are delivered in order. Non-trivial = at least one forgery, fault or rejection class fired; distinct = distinct hashes of (verdicts, held ranges after every step).",
+			Assumptions: []string{
+				"the dummy signature scheme of beacon/light/test_helpers.go stands in for BLS; the forging server never uses the first 32 bytes of a genuine committee (its 'private key' in that scheme)",
+				"the genuine chain has exactly one committee per period (no genuine reorgs across period boundaries)",
+				"updates pass LightClientUpdate.Validate before InsertUpdate, as in beacon/light/api; signed headers are checked through HeadTracker.validate (the exported entry points additionally verify an execution payload proof that is out of scope)",
+				"thresholds above the 2/3 supermajority (342) are not drawn: a finalized update outranks the minimum score regardless of the configured count",
+			},
+			Components: simcore.Components{Real: []string{"beacon/light.CommitteeChain (InsertUpdate, CheckpointInit, rollback, reload from disk)", "beacon/light.HeadTracker.validate", "beacon/light canonicalStore", "beacon/types LightClientUpdate.Validate / BootstrapData.Validate / UpdateScore", "beacon/merkle.VerifyProof", "beacon/params fork signing roots"},
+				Stub: []string{"disk (simdisk.SimKV over memorydb: write errors, crash images)", "clock (mclock.Simulated)", "signature scheme (tree's own dummy verifier)", "beacon chain and update servers (honest model, forger)"}},
+			Runs: map[string]int{"quick": 12000, "thorough": 500000},
+			Gen:  Gen53, Decode: Decode53, Run: Run53, Shrink: Shrink53,
+			ProbeNames: []string{"update-accepted", "update-rejected-by-validate", "update-at-exact-threshold-accepted", "header-accepted", "header-at-exact-threshold-accepted", "checkpoint-init", "liveness-chain-spans-all-periods", "chain-reset-needs-checkpoint"},
+		},
 		"C45": {
 			ID: "C45", Engine: "netsim", Level: "exploration",
 			Rule: "plan = 2-3 node keys, crypto seed, 8-60 operations: send / exchange (send + clean delivery chain) of any of the six message types, deliver an in-flight packet (ok, duplicate, drop, flip a byte in a chosen region, cut, extend, deliver to another node, deliver from another address), replay any earlier packet, reset a node's codec (sessions and challenges lost), advance the shared clock (7 ms .. 5 s), bump a node's record, answer a challenge with a hand-written handshake packet carrying a record with a chosen defect, differential probes of record decoding with chosen mutations; then faults stop and one PING per direction must get through. Non-trivial = at least one fault kind fired; distinct = distinct hashes of (all wire packets, all decode verdicts).",
